@@ -54,3 +54,10 @@ package bundler
 // bytes. The quoted text of an input map's sourcesContent entry may be copied verbatim into the output only if the
 // output is not ASCII-only or that text is itself ASCII-only; otherwise it must be re-quoted (escaped).
 //@ guarded reuse-quoted-contents-only-if-ascii C01 C07: func=(*Bundle).computeDataForSourceMapsInParallel ; in=bundler ; site=convert *.Quoted ; scenario=sourcescontent_ascii ; require-any=false:options.ASCIIOnly || true:call isASCIIOnly(*)
+
+// C09: the entry point list handed to a scan belongs to the build context and is used again by every later rebuild
+// (rebuildImpl passes a shallow copy of the context's arguments). Whatever addEntryPoints decides about a path
+// ("chart.js" is a local file in THIS build: rewrite to "./chart.js") must therefore not be written back into the
+// caller's slice, or the decision of one build sticks to all later ones.
+//@ flow entry-point-decisions-stay-in-this-build.path C09: func=(*scanner).addEntryPoints ; in=bundler ; site=store EntryPoint.InputPath ; scenario=entry_point_path_sticks ; target-not-from=entryPoints
+//@ flow entry-point-decisions-stay-in-this-build.ns C09: func=(*scanner).addEntryPoints ; in=bundler ; site=store EntryPoint.InputPathInFileNamespace ; scenario=entry_point_path_sticks ; target-not-from=entryPoints
